@@ -43,7 +43,7 @@ RULE = ('every command of every loaded plugin (extracted table rows + run-time-o
         'converter branch; distinct = distinct (row, role, form, wrapper, args)')
 
 PLUGINS_QUICK = ['Owner', 'Misc', 'User', 'Admin', 'Config', 'Channel', 'Utilities', 'Scheduler', 'Alias', 'Aka',
-                 'Plugin', 'Network', 'Karma', 'Later', 'BadWords', 'Conditional', 'Filter', 'Math', 'Relay', 'Services']
+                 'Plugin', 'Network', 'Karma', 'Later', 'BadWords', 'Conditional', 'Filter', 'Math', 'Relay', 'Services', 'Unix']
 HERE = os.path.dirname(os.path.abspath(__file__))
 NICK = 'test'
 CHAN = '#c'
@@ -607,7 +607,7 @@ def explore(ctx, b, w, table, required, n_extra):
                 scen.append(Scenario(plugin=plugin, path=path, spec=spec, allow_extra=ae, role=role, form=form, wrapper=wr, args=list(args)))
 
     # anti-capability holders and capabilities.default off, on a rotating subset of rows (all rows in thorough)
-    anti_rows = rows if ctx.thorough else [x for i, x in enumerate(rows) if (i + ctx.seed) % 3 == 0 or x[0] in ('VtGate', 'Utilities', 'Config')]
+    anti_rows = rows if ctx.thorough else [x for i, x in enumerate(rows) if (i + ctx.seed) % 3 == 0 or x[0] in ('VtGate', 'Utilities', 'Config', 'Unix')]
     for i, (plugin, path) in enumerate(anti_rows):
         m = loaded[(plugin, path)]
         spec, ae = row_spec(plugin, path, m)
@@ -663,56 +663,6 @@ def explore(ctx, b, w, table, required, n_extra):
         return b.callbacks.NestedCommandsIrcProxy.findCallbacksForArgs(fake, list(words))
     unroutable = []
     base_snap = [snapshot(b)]
-    def apply_setup(sc):
-        """returns undo()"""
-        if sc.setup is None:
-            return lambda: None
-        what, holder, name = sc.setup
-        undo = []
-        if what == 'anti':
-            anti = '-' + name
-            if holder == 'user':
-                u = user_by_name(b, 'vanti'); u.addCapability(anti); ircdb.users.setUser(u)
-                def un():
-                    u2 = user_by_name(b, 'vanti'); u2.removeCapability(anti); ircdb.users.setUser(u2)
-                undo.append(un)
-            elif holder == 'userchan':
-                cap = '%s,%s' % (CHAN, anti)
-                u = user_by_name(b, 'vanti'); u.addCapability(cap); ircdb.users.setUser(u)
-                def un():
-                    u2 = user_by_name(b, 'vanti'); u2.removeCapability(cap); ircdb.users.setUser(u2)
-                undo.append(un)
-            elif holder == 'chan' and set.__contains__(ircdb.channels.getChannel(CHAN).capabilities, anti):
-                pass        # already there (the channel's default-off anti-capabilities): nothing to add or undo
-            elif holder == 'chan':
-                c = ircdb.channels.getChannel(CHAN); c.addCapability(anti); ircdb.channels.setChannel(CHAN, c)
-                def un():
-                    c2 = ircdb.channels.getChannel(CHAN); c2.removeCapability(anti); ircdb.channels.setChannel(CHAN, c2)
-                undo.append(un)
-            elif holder == 'defaults':
-                if anti not in set.__iter__(conf.supybot.capabilities()) and not set.__contains__(conf.supybot.capabilities(), anti):
-                    conf.supybot.capabilities().add(anti)
-                    undo.append(lambda: conf.supybot.capabilities().remove(anti))
-        elif what in ('default-off', 'default-off-positive'):
-            conf.supybot.capabilities.default.setValue(False)
-            undo.append(lambda: conf.supybot.capabilities.default.setValue(True))
-            if what == 'default-off-positive':
-                u = user_by_name(b, 'vanti'); u.addCapability(name); ircdb.users.setUser(u)
-                def un():
-                    u2 = user_by_name(b, 'vanti'); u2.removeCapability(name); ircdb.users.setUser(u2)
-                undo.append(un)
-        elif what == 'sched':
-            uname = ROLE_USER.get(holder)
-            if uname and holder != 'owner':
-                u = user_by_name(b, uname); u.addCapability('scheduler.add'); ircdb.users.setUser(u)
-                def un():
-                    u2 = user_by_name(b, uname); u2.removeCapability('scheduler.add'); ircdb.users.setUser(u2)
-                undo.append(un)
-        def undo_all():
-            for f in reversed(undo):
-                f()
-        return undo_all
-
     for sc in scen:
         plugin, path = sc.plugin, sc.path
         routed = None
@@ -757,7 +707,7 @@ def explore(ctx, b, w, table, required, n_extra):
         sc.why = '; '.join(reasons)
         # really execute the command method?  only when the oracle expects a refusal, or for the harmless synthetic plugin
         real = sc.expect_deny or sc.expect_silent or plugin == 'VtGate'
-        undo = apply_setup(sc)
+        undo = apply_setup(b, sc.setup)
         try:
             mark = len(lines)
             send_db()
@@ -1002,7 +952,7 @@ def explore(ctx, b, w, table, required, n_extra):
                 Obs.execute = None
                 out = deliver(b, ROLES['unreg'], CHAN, '@flush')
                 cls = classify(out)
-                if ('Owner', ('flush',)) in Obs.bodies or cls[0] != 'nocap':
+                if ('Owner', ('flush',)) in Obs.bodies or cls[0] not in ('nocap', 'error'):
                     ok = False; msg = 'after supybot.capabilities = %r an unregistered caller ran Owner.flush: %r' % (' '.join(words), cls)
         c = Case({'op': 'setdefaults', 'value': ' '.join(words)}, impl=impl, oracle_ok=ok, oracle_msg=msg, kind='setdefaults',
                  tags=['setdefaults'] + (['sd:owner-given'] if any(w.lower() == 'owner' for w in words) else []) +
@@ -1068,6 +1018,58 @@ def explore(ctx, b, w, table, required, n_extra):
     Clock.offset = 0.0
     return cases, lines, pend
 
+def apply_setup(b, setup):
+    """put the databases in the state a scenario needs; returns undo()"""
+    ircdb = b.ircdb; conf = b.conf
+    if setup is None:
+        return lambda: None
+    what, holder, name = setup
+    undo = []
+    if what == 'anti':
+        anti = '-' + name
+        if holder == 'user':
+            u = user_by_name(b, 'vanti'); u.addCapability(anti); ircdb.users.setUser(u)
+            def un():
+                u2 = user_by_name(b, 'vanti'); u2.removeCapability(anti); ircdb.users.setUser(u2)
+            undo.append(un)
+        elif holder == 'userchan':
+            cap = '%s,%s' % (CHAN, anti)
+            u = user_by_name(b, 'vanti'); u.addCapability(cap); ircdb.users.setUser(u)
+            def un():
+                u2 = user_by_name(b, 'vanti'); u2.removeCapability(cap); ircdb.users.setUser(u2)
+            undo.append(un)
+        elif holder == 'chan' and set.__contains__(ircdb.channels.getChannel(CHAN).capabilities, anti):
+            pass        # already there (the channel's default-off anti-capabilities): nothing to add or undo
+        elif holder == 'chan':
+            c = ircdb.channels.getChannel(CHAN); c.addCapability(anti); ircdb.channels.setChannel(CHAN, c)
+            def un():
+                c2 = ircdb.channels.getChannel(CHAN); c2.removeCapability(anti); ircdb.channels.setChannel(CHAN, c2)
+            undo.append(un)
+        elif holder == 'defaults':
+            if anti not in set.__iter__(conf.supybot.capabilities()) and not set.__contains__(conf.supybot.capabilities(), anti):
+                conf.supybot.capabilities().add(anti)
+                undo.append(lambda: conf.supybot.capabilities().remove(anti))
+    elif what in ('default-off', 'default-off-positive'):
+        conf.supybot.capabilities.default.setValue(False)
+        undo.append(lambda: conf.supybot.capabilities.default.setValue(True))
+        if what == 'default-off-positive':
+            u = user_by_name(b, 'vanti'); u.addCapability(name); ircdb.users.setUser(u)
+            def un():
+                u2 = user_by_name(b, 'vanti'); u2.removeCapability(name); ircdb.users.setUser(u2)
+            undo.append(un)
+    elif what == 'sched':
+        uname = ROLE_USER.get(holder)
+        if uname and holder != 'owner':
+            u = user_by_name(b, uname); u.addCapability('scheduler.add'); ircdb.users.setUser(u)
+            def un():
+                u2 = user_by_name(b, uname); u2.removeCapability('scheduler.add'); ircdb.users.setUser(u2)
+            undo.append(un)
+    def undo_all():
+        for f in reversed(undo):
+            f()
+    return undo_all
+
+
 def reconcile(c):
     """unmodelled converters behave as the identity in the model; on the implementation they may stop the
     call (ArgumentError, invalid argument): both canonical forms are then folded to 'gate:allow|stopped-or-body'"""
@@ -1127,7 +1129,38 @@ def run(ctx):
                             extra={'plugins_loaded': list(b.loaded)}, t0=ctx.t0)
 
 def replay(ctx, path):
+    """re-run the case of a replay file on the implementation and print what happens"""
     d = json.load(open(path))
     c = d.get('case') or d.get('first_disagreement')
     print(json.dumps(c, indent=1))
+    if not c:
+        print('broken obligations:', d.get('broken_obligations'))
+        return 0
+    inp = c['input']
+    b, w = boot(ctx)
+    Obs.execute = None
+    if inp.get('op') == 'call':
+        setup = tuple(inp['setup']) if inp.get('setup') else None
+        if setup and setup[0] == 'sched':
+            print('(scheduled replay: run ./check C01 to reproduce the firing; showing the direct call)')
+            setup = None
+        undo = apply_setup(b, setup)
+        try:
+            before = snapshot(b)
+            out = deliver(b, inp['prefix'], inp['target'], inp['text'])
+            changed = snap_diff(before, snapshot(b))
+        finally:
+            undo()
+        print('implementation now: replies=%r' % [str(m).strip() for m in out])
+        print('  _callCommand let through: %r' % (Obs.gate,))
+        print('  command bodies that ran: %r' % (Obs.bodies,))
+        print('  state changed: %r' % (changed,))
+    elif inp.get('op') in ('config', 'ignore'):
+        before = snapshot(b)
+        out = deliver(b, inp['prefix'], inp['target'], inp['text'])
+        print('implementation now: replies=%r bodies=%r changed=%r' % ([str(m).strip() for m in out], Obs.bodies, snap_diff(before, snapshot(b))))
+    elif inp.get('op') == 'setdefaults':
+        with contextlib.redirect_stdout(io.StringIO()):
+            b.conf.supybot.capabilities.set(inp['value'])
+        print('implementation now: supybot.capabilities = %r' % sorted(set.__iter__(b.conf.supybot.capabilities())))
     return 0
